@@ -30,7 +30,8 @@ TECHNIQUE = ("Hypothesis-generated class/struct models rendered to py/ts/js/rs w
              "per-language overrides and CLI options")
 RULE = (
     "case = 1-3 source files (py, ts/tsx, js/jsx, rs) x 1-3 classes/structs each + one srp configuration (top-level, "
-    "per-language sections, CLI flags); method count m drawn around the effective M, padding makes LOC hit L-1/L/L+1. "
+    "per-language sections, CLI flags); members public/private/dunder/property/static/constructor and, for ts/js, quoted, numeric, "
+    "computed and generator method names; method count m drawn around the effective M, padding makes LOC hit L-1/L/L+1. "
     "Non-trivial: at least one class exactly on a limit (m==M or loc==L, that criterion not exceeded) and at least one "
     "class just above one (m==M+1 or loc==L+1). Distinct = hash of per-class (language, member kinds, criteria fired, "
     "position relative to each limit, blank/comment lines present) + shape of the configuration (which keys at which level)."
